@@ -16,6 +16,17 @@ CLAIMED = {
              'get_rng, thread::sleep, regex/regex_automata constructors); host code outside the crate; unwinding paths ignored.',
         technique='static analysis: who-may-access + interprocedural dominance over resolved MIR (rustc_private driver), book table agreement',
         design='2/C11'),
+    'C13': dict(
+        level='proof',
+        text='Constructor discipline proved by induction over construction sites, exhaustive over all MIR bodies: every XValue::Float / '
+             'LiteralFloat aggregate (and every use of those constructors as functions) is either dominated by the true edge of a branch on '
+             'f64::is_finite of the same value, or its operand is a finite-preserving function (copy, clone, negation, abs) of a payload read '
+             'from an existing finite carrier; the host clock value flows only into the checked constructor. Hence no non-finite float value '
+             'can be created. Obligations = construction sites + clock sinks.',
+        note='Trusted: rustc MIR; serde_json::Number never holds a non-finite f64; f64 neg/abs/clone preserve finiteness; only XValue::Float '
+             'carries floats observable by programs or exported to the host.',
+        technique='static analysis: construction-site enumeration + dominance by is_finite guard + value-origin dataflow on resolved MIR',
+        design='2/C13'),
 }
 
 NA_REASONS = {
